@@ -1211,8 +1211,8 @@ def array_to_groups_and_locations(
                 return_index=True,
                 return_inverse=True,
                 axis=unique_axis)
-        # groups here are the strings; need to restore to values
-        groups = array[group_index]
+        # groups here are the strings; need to restore to values (columns when unique columns were requested)
+        groups = array[:, group_index] if unique_axis == 1 else array[group_index]
 
     return groups, locations
 
